@@ -550,6 +550,8 @@ def gen_case(ctx, kind=None, dyadic=False, large=False):
     bp = gen_points(r, br, pr, ps, rx, ry, dyadic, n, below=not large)
     case["skew"] = r.random() < 0.6
     case["decoy"] = r.random() < 0.3       # see run_real: a call on a look-alike imager right before the real one
+    # the joblib route of `transform` (n_jobs=1 runs it in-process): the options must reach the worker call too
+    case["n_jobs"] = 1 if r.random() < 0.12 else None
     # the caller's diagram: (b, d) when skew, else the already converted (b, p)
     case["dgm"] = [[b, b + p] for b, p in bp] if case["skew"] else bp
     case["dyadic"] = dyadic
@@ -587,7 +589,8 @@ def run_real(case):
                 if st == "ok":
                     bpn, ppn, res = [float(x) for x in pim._bpnts], [float(x) for x in pim._ppnts], tuple(int(x) for x in pim.resolution)
             else:
-                st, v, _ = call(pim.transform, d, skew=case["skew"])
+                kw = {"n_jobs": case["n_jobs"]} if case.get("n_jobs") is not None else {}
+                st, v, _ = call(pim.transform, d, skew=case["skew"], **kw)
     n = len(case["dgm"])
     path = None
     if n > 0 and st == "ok":
